@@ -37,6 +37,13 @@ class Interp:
             'fifo', kernel.stream(scenario.get('run_seed', 0), 'sched'),
             0, self.trace)
         self.cp = d.CoroutineProcessor()
+
+        class SecondProcessor(d.CoroutineProcessor):
+            priority = 1
+        self.cp2 = SecondProcessor()    # coroutines can be handed over
+        self.owner = {}
+        self.norelease = set()
+        self.min_release = {}
         self.world = None
         self.saved_loop = d.default_loop
         if self.cfg.get('in_world'):
@@ -54,6 +61,7 @@ class Interp:
             self.world = w = d.World()
             w.add_processor(Before(), -1)
             w.add_processor(self.cp)
+            w.add_processor(self.cp2)
             w.add_processor(After())
             world = w
 
@@ -160,6 +168,27 @@ class Interp:
     def fail(self, props, kind, detail=''):
         raise Violation(props, kind, detail)
 
+    def proc(self, c):
+        return self.cp2 if self.owner.get(c) == 2 else self.cp
+
+    def op_handoff(self, op):
+        """kill(g) on one processor, start(g) on the other one (the
+        documented way to move a coroutine)."""
+        c = op[1]
+        if self.costack or self.in_frame or self.status[c] == 'T' \
+                or c in self.finished:
+            return 'skip'
+        if self.status[c] == 'P':
+            # the old processor keeps its killed-waiter entry until the old
+            # deadline: no release expectation for this generator any more
+            self.norelease.add(c)
+        else:
+            self.min_release[c] = self.frame_no + 1
+        self.op_kill(['kill', c])
+        self.owner[c] = 1 if self.owner.get(c) == 2 else 2
+        self.op_start(['start', c])
+        self.probes['handed_to_other_processor'] += 1
+
     # ---- operations
     def exec_op(self, op):
         self.stats['ops'] += 1
@@ -225,7 +254,7 @@ class Interp:
         g = self.gens[c]
         inside_own = c in self.costack
         if via is None:
-            r = self.call(lambda: self.cp.start(g), f'start(c{c})')
+            r = self.call(lambda: self.proc(c).start(g), f'start(c{c})')
         else:
             r = self.call(via, f'decorated start(c{c})')
             self.probes['decorator_path'] += 1
@@ -279,7 +308,7 @@ class Interp:
 
     def op_dstart(self, op):
         c, use_default = op[1], op[2]
-        if self.world is None:
+        if self.world is None or self.owner.get(c) == 2:
             return self.op_start(op)
         if use_default:
             return self.op_start(op, via=lambda: self.launch(c))
@@ -294,7 +323,7 @@ class Interp:
                 return 'skip'
             r = self.call(lambda: p.kill(), f'promise.kill(c{c})')
         else:
-            r = self.call(lambda: self.cp.kill(g), f'kill(c{c})')
+            r = self.call(lambda: self.proc(c).kill(g), f'kill(c{c})')
         st = self.status[c]
         if st == 'A' and c in self.finished:
             if r[0] == 'exc':
@@ -363,12 +392,18 @@ class Interp:
                 return 'skip'
             r = self.call(lambda: p.state, f'promise.state(c{c})')
         else:
-            r = self.call(lambda: self.cp.state(self.gens[c]),
+            r = self.call(lambda: self.proc(c).state(self.gens[c]),
                           f'state(c{c})')
         if r[0] == 'exc':
             self.fail('C09', 'wrong_exception', f'state(c{c}) raised '
                       f'{r[1]!r}')
         if zombie and r[1] == S.TERMINATED:
+            return
+        if (self.costack and c in self.woken_set and r[1] == S.PAUSED
+                and self.owner.get(c) == 2
+                and self.owner.get(self.costack[-1]) != 2):
+            # the second processor wakes its coroutines after the bodies of
+            # the first one ran in this frame
             return
         if r[1] != want:
             self.fail('C09', 'state', f'state(c{c}) = {r[1]!r}, expected '
@@ -444,6 +479,7 @@ class Interp:
             self.status[c] = 'A'
             del self.need[c], self.acc[c]
         self.woken_this_frame = bool(woken)
+        self.woken_set = set(woken)
         self.expect = {c: 1 for c, s in self.status.items()
                        if s == 'A' and c not in self.finished}
         self.advanced = []
@@ -455,6 +491,7 @@ class Interp:
                     self.world.process(dt)
                 else:
                     self.cp.process(dt)
+                    self.cp2.process(dt)
         except Violation:
             raise
         except SimHang as e:
@@ -507,7 +544,10 @@ class Interp:
 
     def check_release(self):
         for c, due in list(self.release_due.items()):
-            if due > self.frame_no:
+            if c in self.norelease:
+                del self.release_due[c]
+                continue
+            if max(due, self.min_release.get(c, 0)) > self.frame_no:
                 continue
             del self.release_due[c]
             if self.status[c] != 'T':
@@ -535,6 +575,7 @@ def execute(scenario, prop, tolerate=frozenset()):
     it.pending_finish, it.done_this_frame = set(), set()
     it.value_known, it.flags, it.started_frame = {}, set(), {}
     it.woken_this_frame = False
+    it.woken_set = set()
     it.broken = set()
     violation = None
     idx = -1
@@ -598,10 +639,11 @@ def generate(prop, run_seed, tier='quick', tolerate=frozenset()):
     cfg = {'in_world': crng.random() < .33, 'coros': coros}
     life = prop == 'C09'
     w = dict(frame=6, start=2, kill=.4, pkill=.1, state=.3, pstate=.1,
-             value=.2, bad=.05, dstart=.2, pause_resume=0)
+             value=.2, bad=.05, dstart=.2, pause_resume=0, handoff=0)
     if life:
         w.update(kill=1.5, pkill=.5, state=1.2, pstate=.5, value=.6,
-                 bad=.2, dstart=.6, pause_resume=1.2, start=2.5)
+                 bad=.2, dstart=.6, pause_resume=1.2, start=2.5,
+                 handoff=.5)
     for k in list(w):
         if k not in ('frame', 'start') and crng.random() < .25:
             w[k] = 0
@@ -627,6 +669,8 @@ def generate(prop, run_seed, tier='quick', tolerate=frozenset()):
                 ops.append(['frame', rng.choice(dts)])
                 frames += 1
             ops.append(['start', c])
+        elif k == 'handoff':
+            ops.append(['handoff', c])
         elif k == 'bad':
             ops.append(['bad', rng.choice(['start', 'kill', 'state']),
                         rng.choice(['int', 'none', 'func', 'list'])])
@@ -721,5 +765,6 @@ PROBES = {
             'kill_terminated_rejected', 'restart_finished',
             'release_checked.finished', 'release_checked.killed',
             'decorator_path', 'non_generator_rejected', 'value_checked',
+            'handed_to_other_processor',
             'state_read.T', 'state_read.A', 'state_read.P'],
 }
